@@ -352,6 +352,12 @@ class IH5InnerNode(IH5Node):
                 return default
             else:
                 raise
+        except ValueError as e:
+            # a path leading through a dataset does not exist either (as in h5py)
+            if str(e).find("inside a value") >= 0:
+                return default
+            else:
+                raise
 
     def __getitem__(self, key: str):
         self._guard_open()
